@@ -27,6 +27,7 @@ Run(tr, i, x, acc) ==
                                                       /\ (ev.a # "c_new" => ob.req.orig = x.o.clord)))
                 \o Fc("O3_report_processed", ev.a = "c_recv" => ob.exc = "none")
                 \o Fc("O3_predicates", ob.can_cancel = CanRequest(c.st) /\ ob.can_replace = CanRequest(c.st) /\ ob.finished = (c.st \in Finished))
+                \o Fc("O6_finished_refuses", ob.finished => (ob.probe_cancel = "refused" /\ ob.probe_replace = "refused"))
                 \o Fc("O3_live_id", O3live(x2, c))
                 \o Fc("O4", O4c(x2, c)) \o Fc("O5", O5c(x2, c))
              dr == c # ModelCl(x2.o)
